@@ -81,7 +81,7 @@ def main(rep, tier, only):
             else:
                 rep.ok("W", wid, site, text, how="compiles")
     try:
-        db = load.load(tier, lib=False, drivers=["drv_random"])
+        db = load.load(tier, lib=False, drivers=["drv_random"], tests=False)
     except P.AnalysisBroken as e:
         if rep.viol:
             # the instantiation driver does not parse because wrapper members are ill-formed: that is exactly what
